@@ -1427,6 +1427,18 @@ impl PeerConnection {
             None
         };
 
+        {
+            // A changed fingerprint after the DTLS transport started is refused. Check
+            // this before anything is applied so that a refused call changes nothing.
+            let dtls_started = self.inner.dtls_transport.lock().is_some();
+            if dtls_started && *self.inner.remote_dtls_fingerprint.lock() != remote_dtls_fingerprint {
+                return Err(RtcError::InvalidState(
+                    "changing remote DTLS fingerprint after transport start is not supported"
+                        .into(),
+                ));
+            }
+        }
+
         let previous_remote = self.inner.remote_description.lock().clone();
         let media_parameters_changed = previous_remote.as_ref().is_none_or(|previous| {
             previous.session.connection != desc.session.connection
@@ -1548,15 +1560,7 @@ impl PeerConnection {
         {
             // Cache the remote fingerprint before ICE/DTLS starts so the handshake can bind
             // the SDP identity to the certificate actually presented on the wire.
-            let dtls_started = self.inner.dtls_transport.lock().is_some();
-            let mut stored = self.inner.remote_dtls_fingerprint.lock();
-            if dtls_started && *stored != remote_dtls_fingerprint {
-                return Err(RtcError::InvalidState(
-                    "changing remote DTLS fingerprint after transport start is not supported"
-                        .into(),
-                ));
-            }
-            *stored = remote_dtls_fingerprint;
+            *self.inner.remote_dtls_fingerprint.lock() = remote_dtls_fingerprint;
         }
 
         // Start ICE
